@@ -864,10 +864,12 @@ package rtcp
 //@   fresh
 //@   unroll 1 15
 //@   requires[C09] bounded: len(r.SymbolList) <= 14
-//@   ensures[C03,C13,C16] one: err == nil && r.SymbolSize == 0 && len(r.SymbolList) == 14 ==> len(result) == 2 && be16(result, 0)>>14 == 2
-//@   ensures[C03,C13,C16] one_symbols: forall i :: err == nil && r.SymbolSize == 0 && len(r.SymbolList) == 14 && 0 <= i && i < 14 ==> specVectorSymbol1(be16(result, 0), i) == r.SymbolList[i]&1
-//@   ensures[C03,C13,C16] two: err == nil && r.SymbolSize == 1 && len(r.SymbolList) == 7 ==> len(result) == 2 && be16(result, 0)>>14 == 3
-//@   ensures[C03,C13,C16] two_symbols: forall i :: err == nil && r.SymbolSize == 1 && len(r.SymbolList) == 7 && 0 <= i && i < 7 ==> specVectorSymbol2(be16(result, 0), i) == r.SymbolList[i]&3
+//@   ensures[C03,C13,C16] one: err == nil && r.SymbolSize == 0 ==> len(result) == 2 && be16(result, 0)>>14 == 2
+//@   ensures[C03,C13,C16] one_symbols: forall i :: err == nil && r.SymbolSize == 0 && 0 <= i && i < 14 && i < len(r.SymbolList) ==> specVectorSymbol1(be16(result, 0), i) == r.SymbolList[i]&1
+//@   ensures[C03,C16] one_rest: forall i :: err == nil && r.SymbolSize == 0 && len(r.SymbolList) <= i && i < 14 ==> specVectorSymbol1(be16(result, 0), i) == 0
+//@   ensures[C03,C13,C16] two: err == nil && r.SymbolSize == 1 ==> len(result) == 2 && be16(result, 0)>>14 == 3
+//@   ensures[C03,C13,C16] two_symbols: forall i :: err == nil && r.SymbolSize == 1 && 0 <= i && i < 7 && i < len(r.SymbolList) ==> specVectorSymbol2(be16(result, 0), i) == r.SymbolList[i]&3
+//@   ensures[C03,C16] two_rest: forall i :: err == nil && r.SymbolSize == 1 && len(r.SymbolList) <= i && i < 7 ==> specVectorSymbol2(be16(result, 0), i) == 0
 //@   ensures[C08] fits1: r.SymbolSize == 0 && len(r.SymbolList) <= 14 ==> err == nil
 //@   ensures[C08] fits2: r.SymbolSize == 1 && len(r.SymbolList) <= 7 ==> err == nil
 //@   ensures[C08] toomany1: r.SymbolSize == 0 && len(r.SymbolList) > 14 ==> err != nil
